@@ -22,7 +22,7 @@ import (
 	"github.com/metrico/qryn/reader/logql/logql_transpiler_v2/shared"
 	sql "github.com/metrico/qryn/reader/utils/sql_select"
 	prommodel "github.com/prometheus/common/model"
-	"verif/harness/fakes"
+	fakes "verif/harness/fakes12"
 	"verif/harness/h"
 )
 
@@ -241,7 +241,7 @@ func c12RunStage(st *c12StageCase, db *fakes.ReaderDB) string {
 
 // ---- parent side
 
-func i64s(xs []int64) string {
+func c12i64s(xs []int64) string {
 	if len(xs) == 0 {
 		return "-"
 	}
@@ -364,7 +364,7 @@ func c12StageOp(st *c12StageCase) string {
 		for _, e := range st.Entries {
 			tss = append(tss, e[1])
 		}
-		return fmt.Sprintf("c12lra %d %d %d %s", st.From, st.Dur, 2*((st.To-st.From)/st.Dur), i64s(tss))
+		return fmt.Sprintf("c12lra %d %d %d %s", st.From, st.Dur, 2*((st.To-st.From)/st.Dur), c12i64s(tss))
 	case "aggop":
 		return fmt.Sprintf("c12aggop %d %d %d %d", st.From, st.Dur, 2*((st.To-st.From)/st.Dur), st.Entries[0][1])
 	case "limit":
@@ -372,7 +372,7 @@ func c12StageOp(st *c12StageCase) string {
 		for _, n := range st.Sizes {
 			ns = append(ns, int64(n))
 		}
-		return fmt.Sprintf("c12limit %d %s", st.Limit, i64s(ns))
+		return fmt.Sprintf("c12limit %d %s", st.Limit, c12i64s(ns))
 	case "scan":
 		if st.Events == "" {
 			return "c12scan 100"
@@ -452,7 +452,7 @@ var c12TieQueries = []string{`{a="b"}`, `rate({a="b"}[1m])`, `rate({a="b"}[0s])`
 	`sum by (a) (count_over_time({a="b"} | json [5s]))`, `count_over_time({a="b"} | json [0s])`, `bad query(`, `{a="b"} | json`, `count_over_time({a="b"} | logfmt [1ms])`,
 	`rate({a="b"}[9223372036854775807ns])`}
 
-func b01(b bool) string {
+func c12b01(b bool) string {
 	if b {
 		return "1"
 	}
@@ -503,8 +503,8 @@ func c12GenQR(r *h.Rng, id int, instant bool) (*c12Case, string) {
 			v.Set("end", end)
 		}
 		cs.Path = "/loki/api/v1/query_range?" + v.Encode()
-		op = fmt.Sprintf("c12qr %s %s %s %s %s %s %d %s 0 %s %s", b01(query == ""), c12ParsedFloatI64(start), c12ParsedFloatI64(end), c12StepMs(step),
-			b01(pf.parseOk), b01(pf.matrix), pf.rangeDur, pf.aggDur, b01(mainFails), rows)
+		op = fmt.Sprintf("c12qr %s %s %s %s %s %s %d %s 0 %s %s", c12b01(query == ""), c12ParsedFloatI64(start), c12ParsedFloatI64(end), c12StepMs(step),
+			c12b01(pf.parseOk), c12b01(pf.matrix), pf.rangeDur, pf.aggDur, c12b01(mainFails), rows)
 	} else {
 		cs.Endpoint = "loki/query"
 		t := h.Pick(r, []string{"", "0", fmt.Sprint(c12Base * 1e9), "1", "-1", "abc", "1.5", "9223372036854775807", "300000000000", "299999999999"})
@@ -521,8 +521,8 @@ func c12GenQR(r *h.Rng, id int, instant bool) (*c12Case, string) {
 			}
 		}
 		// time absent or 0 → time.Now(): the model gets an instant of the same kind (a present-day timestamp)
-		op = fmt.Sprintf("c12qi %s %s %d %s %s %s %d %s 0 %s %s", b01(query == ""), tp, time.Now().UnixNano(), c12StepMs(step),
-			b01(pf.parseOk), b01(pf.matrix), pf.rangeDur, pf.aggDur, b01(mainFails), rows)
+		op = fmt.Sprintf("c12qi %s %s %d %s %s %s %d %s 0 %s %s", c12b01(query == ""), tp, time.Now().UnixNano(), c12StepMs(step),
+			c12b01(pf.parseOk), c12b01(pf.matrix), pf.rangeDur, pf.aggDur, c12b01(mainFails), rows)
 	}
 	cs.Class = "tie"
 	return cs, op
@@ -540,7 +540,7 @@ func c12GenTrace(r *h.Rng, id int) (*c12Case, string) {
 	qf := r.Chance(15)
 	cs := &c12Case{ID: id, Endpoint: "tempo/trace", Method: "GET", Abort: -1, Path: "/api/traces/" + string(b), Class: "tie",
 		Answers: []c12Answer{{Shape: "spans", N: 1, Seed: r.U64(), QueryErr: qf}}}
-	return cs, fmt.Sprintf("c12trace %d %s %s", n, bad, b01(qf))
+	return cs, fmt.Sprintf("c12trace %d %s %s", n, bad, c12b01(qf))
 }
 
 var c12NumRe = regexp.MustCompile("^[0-9.]+$")
@@ -595,7 +595,7 @@ func c12GenPromQR(r *h.Rng) (*c12Case, string) {
 			ok = false
 		}
 	}
-	return cs, fmt.Sprintf("c12promqr %s %d %d %d 1 1", b01(ok), ts.Unix(), te.Unix(), stepNs)
+	return cs, fmt.Sprintf("c12promqr %s %d %d %d 1 1", c12b01(ok), ts.Unix(), te.Unix(), stepNs)
 }
 
 func c12Stages(r *h.Result, rng *h.Rng, tier string) error {
